@@ -46,7 +46,7 @@ fn gen_base(rng: &mut Rng) -> (Scenario, String) {
         mode = "insert";
         sc.handlers = vec![];
         for _ in 0..rng.range(1, 3) {
-            let c = Content { s: rng.pick(INSERTS).to_string(), html: rng.bool(), stream: if rng.chance(1, 4) { rng.range(1, 3) as u8 } else { 0 }, fail_stream: false };
+            let c = Content { s: rng.pick(INSERTS).to_string(), html: rng.bool(), stream: if rng.chance(1, 4) { rng.range(1, 3) as u8 } else { 0 }, fail_stream: false, utf8_chunks: 0 };
             match rng.below(6) {
                 0 => sc.handlers.push(HandlerSpec::End { ops: vec![c] }),
                 1 => sc.handlers.push(HandlerSpec::Element { sel: "p".into(), ops: vec![ElOp::Before(c)] }),
@@ -56,6 +56,19 @@ fn gen_base(rng: &mut Rng) -> (Scenario, String) {
                 _ => sc.handlers.push(HandlerSpec::Element { sel: "p".into(), ops: vec![ElOp::Replace(c)] }),
             }
         }
+    } else if meta && rng.chance(1, 3) {
+        // declaration followed by pass-through bytes only: no handler keeps the parser in the
+        // lexer after the <meta>, so the switch must not wait for a later token; content
+        // appended at the end of the document is encoded in the encoding in force *then*
+        mode = "meta_scan";
+        sc.handlers = vec![];
+        match rng.below(3) {
+            0 => {}
+            1 => sc.handlers.push(wl::el_observer(rng.pick(&["b", "p", "i", "title"]))),
+            _ => sc.handlers.push(wl::el_observer("*")),
+        }
+        let c = Content { s: rng.pick(INSERTS).to_string(), html: rng.bool(), stream: 0, fail_stream: false, utf8_chunks: 0 };
+        sc.handlers.push(HandlerSpec::End { ops: vec![c] });
     } else {
         mode = "decode";
         sc.handlers = observers();
@@ -121,7 +134,7 @@ impl Property for C13 {
         }
     }
     fn rule(&self) -> &'static str {
-        "one run = one generated text-heavy document in one of the 36 ASCII-compatible encodings (valid multi-byte characters, malformed and truncated sequences, ASCII-range trail bytes, text longer than the decoder buffer, BOM-like prefixes inside values, meta charset declarations at varied positions) x schedule family (every 1-cut = a cut at every byte of every multi-byte character, sampled k-cuts, bytewise); strings read by handlers are compared with encoding_rs whole-buffer decoding of the corresponding input bytes, inserted content with encoding_rs encode(), and the set_encoding log with the first valid declaration; non-trivial = non-ASCII bytes present and a cut inside the document; distinct by scenario fingerprint"
+        "one run = one generated text-heavy document in one of the 36 ASCII-compatible encodings (valid multi-byte characters, malformed and truncated sequences, ASCII-range trail bytes, text longer than the decoder buffer, BOM-like prefixes inside values, meta charset declarations at varied positions) x schedule family (every 1-cut = a cut at every byte of every multi-byte character, sampled k-cuts, bytewise); strings read by handlers are compared with encoding_rs whole-buffer decoding of the corresponding input bytes, inserted content with encoding_rs encode(), and the set_encoding log with the first valid declaration (declared labels include non-ASCII-compatible and unknown ones, which must be ignored); a third population has no capturing handler after the <meta> (pass-through only) and appends content at the end of the document, which must be encoded in the encoding in force then; non-trivial = non-ASCII bytes present and a cut inside the document; distinct by scenario fingerprint"
     }
     fn assumptions(&self) -> Vec<&'static str> {
         vec![
@@ -182,7 +195,8 @@ impl Property for C13 {
             st.bump("c13.insert_compared");
             return Ok(Ok(()));
         }
-        if sc.handlers != observers() {
+        let meta_scan = case.mode == "meta_scan";
+        if !meta_scan && sc.handlers != observers() {
             return Err(HarnessError("C13 decode mode uses a fixed observer set".into()));
         }
         // --- meta charset: expected switch ---
@@ -234,7 +248,7 @@ impl Property for C13 {
             (None, 1) => {}
             (Some(e), 2) if encs[1].1 == e.name() => {
                 st.bump("c13.meta_switch_observed");
-                if h.out == *doc {
+                if h.out.starts_with(doc) {
                     let at = expected_switch.unwrap().1;
                     if encs[1].2 != at {
                         return Ok(Err(Fail::new("C13.notify_before", format!("set_encoding({}) arrived at sink offset {}, the declaring meta tag ends at {at}", e.name(), encs[1].2))));
@@ -247,6 +261,26 @@ impl Property for C13 {
                     format!("expected encoding switch {:?}, sink saw {:?}", want.map(|e| e.name()), encs.iter().map(|e| e.1.clone()).collect::<Vec<_>>()),
                 )));
             }
+        }
+        if meta_scan {
+            // everything passes through; the appended content is encoded in the final encoding
+            let final_enc = switch_target.unwrap_or(enc0);
+            let mut want = doc.clone();
+            for hs in &sc.handlers {
+                if let HandlerSpec::End { ops } = hs {
+                    for c in ops {
+                        want.extend(edit::render_content(final_enc, c));
+                    }
+                }
+            }
+            if h.out != want {
+                return Ok(Err(Fail::new(
+                    "C13.insert",
+                    format!("{} ; document end content must be encoded in {} (configured {}, cuts {:?})", diff_detail("pass-through document ++ encoded end content", &want, &h.out), final_enc.name(), enc0.name(), sc.cuts),
+                )));
+            }
+            st.bump("c13.meta_scan_compared");
+            return Ok(Ok(()));
         }
         let switch_at = expected_switch.filter(|(e, _)| *e != enc0);
         let enc_at = |pos: usize| -> &'static Encoding {
